@@ -658,8 +658,11 @@ def eval_d1(res, cell):
             okw["PSF_param"] = par
 
         def build(BC=None):
+            # (BC given: the zero-boundary sibling used to read off the default PSF - plain Gaussian noise, so that it
+            #  is constructible whatever the exact data are)
             return cuqi.testproblem.Deconvolution1D(dim=dim, PSF=P, BC=_sp(cell, bc) if BC is None else BC,
-                                                    noise_type=_sp(cell, cell["noise"]), noise_std=cell["std"],
+                                                    noise_type=_sp(cell, cell["noise"]) if BC is None else "gaussian",
+                                                    noise_std=cell["std"],
                                                     prior=_make_prior(cell.get("prior", "default"), dim, k),
                                                     **okw, **_phantom_args(cell))
     try:
@@ -1353,7 +1356,7 @@ def eval_use(res, cell):
     import cuqi
     k, pk, op, prk = cell["cat"], cell["prob"], cell["op"], cell["prior"]
     comp = _USE_COMP[pk]
-    sig = "C17|%s|components-after-use|op=%s" % (comp, op if prk in ("default", "gaussian") else "%s,prior=%s" % (op, prk))
+    sig = "C17|%s|components-after-use|op=%s" % (comp, op)
     try:
         if pk == "wang":
             prob = cuqi.testproblem.WangCubic(noise_std=0.5, data=2.5)
